@@ -39,6 +39,32 @@ namespace verif53 {
     Kinematic getBehaviourKinematic() const override {
       return tfel::material::MechanicalBehaviourBase::SMALLSTRAINKINEMATIC;
     }
+    //! set by `make`: the real behaviours store `shared_from_this()` in the states they allocate
+    std::weak_ptr<const mtest::Behaviour> self;
+    void allocateCurrentState(mtest::CurrentState& s) const override {
+      verif48::MockBehaviour::allocateCurrentState(s);
+      s.behaviour = self.lock();
+    }
+    //! `s1[i] = D(i,0)*e1[0] + D(i,1)*e1[1] + D(i,2)*e1[2]` (this operation order is the one of the model)
+    std::pair<bool, real> integrate(mtest::CurrentState& s,
+                                    mtest::BehaviourWorkSpace& wk,
+                                    const real,
+                                    const mtest::StiffnessMatrixType) const override {
+      for (unsigned short i = 0; i != 3; ++i) {
+        s.s1[i] = D[i * 3] * s.e1[0] + D[i * 3 + 1] * s.e1[1] + D[i * 3 + 2] * s.e1[2];
+        for (unsigned short j = 0; j != 3; ++j) {
+          wk.k(i, j) = D[i * 3 + j];
+        }
+      }
+      return {true, 1};
+    }
+    static std::shared_ptr<Elastic> make(const std::vector<real>& d) {
+      auto b = std::make_shared<Elastic>();
+      b->ndv = 3;
+      b->D = d;
+      b->self = b;
+      return b;
+    }
   };
 
   //! isotropic stiffness in the (rr, zz, tt) ordering
